@@ -3,8 +3,8 @@
    linear / skip connections, a single layer or a full FNO with Tanh; shifts; refinement factors (1-D layer). *)
 EXTENDS Integers, Sequences, FiniteSets, TLC, Json, IOUtils, SequencesExt
 S1 == {[d |-> 1, N |-> <<n>>, ch |-> c, modes |-> <<m>>, lin |-> l, skip |-> sk, kind |-> kd,
-        shifts |-> [i \in 1..(n - 1) |-> <<i>>], refine |-> IF kd = "layer" /\ m <= n \div 2 THEN <<2, 3>> ELSE <<>>] :
-          n \in {4, 5, 8, 12}, c \in 1..2, m \in {2, 3, 5, 9}, l \in BOOLEAN, sk \in BOOLEAN, kd \in {"layer", "fno"}}
+        shifts |-> [i \in 1..(n - 1) |-> <<i>>], refine |-> IF kd = "layer" THEN <<2, 3>> ELSE <<>>] :
+          n \in {4, 5, 8, 9, 12}, c \in 1..2, m \in {2, 3, 5, 9}, l \in BOOLEAN, sk \in BOOLEAN, kd \in {"layer", "fno"}}
 S2 == {[d |-> 2, N |-> nn, ch |-> c, modes |-> mm, lin |-> l, skip |-> l, kind |-> kd,
         shifts |-> <<<<1, 0>>, <<0, 1>>, <<2, 3>>, <<nn[1] - 1, 1>>, <<3, nn[2] - 1>>, <<1, 2>>>>, refine |-> <<>>] :
           nn \in {<<4, 4>>, <<5, 8>>, <<8, 6>>}, c \in {1, 3}, mm \in {<<2, 2>>, <<3, 5>>, <<9, 9>>}, l \in BOOLEAN, kd \in {"layer", "fno"}}
